@@ -431,6 +431,9 @@ def run_cli(ctx, case, rng):
         ctx.stratum('cli source other than plain utf-8 export')
     if lig:
         args += ['--dest-opts', 'lex_in_grammar']
+    if zlib_pick(case, 3) == 1:
+        args += ['--verbose']
+        ctx.stratum('cli with --verbose')
     mk = case.get('markov')
     if mk is not None:
         args += ['--markov'] + mk
